@@ -195,6 +195,17 @@ theorem C01_each_positional_parameter_receives_its_own (s : Sig) (wf : ViewWF s)
   refine ⟨j, by simp; omega, ?_⟩
   simp [List.getElem_zip, hpe, hve]
 
+/-- **What cannot be bound raises** (the CPython leg of "raises rather than binding any value to a
+    different parameter"): more positional values than positional-mode parameters without `*args`, or
+    a keyword naming no keyword-capable parameter without `**kwargs`, is a `TypeError` — the call
+    `build` makes never drops such a value or moves it to another parameter. -/
+theorem C01_unbindable_call_raises (s : Sig) (pos : List Val) (kws : List (String × Val)) :
+    (s.positionalParams.length < pos.length → s.hasVp = false → pyCall s pos kws = .error .typeError) ∧
+    (∀ n v, (n, v) ∈ kws → s.isKwParam n = false → s.hasVk = false →
+      pyCall s pos kws = .error .typeError) :=
+  ⟨fun h hv => pyCall_excess_rejected s pos kws h hv,
+   fun n v hm hk hvk => pyCall_unknown_keyword_rejected s pos kws n v hm hk hvk⟩
+
 /-! ### The keyword part -/
 
 /-- **Nothing is invented or renamed**: every keyword argument `build` passes is a configured
